@@ -831,7 +831,7 @@ class _Select(Entry):
     def cases(self, ctx, round=0):
         r = ctx.rng
         cs = []
-        for _ in range(ctx.n(185, 2200)):
+        for _ in range(ctx.n(185, 1900)):
             p = r.random()
             if p < 0.08:
                 arr, na, kind = gen_substr_case(r, ctx)
@@ -944,7 +944,7 @@ class Add(Entry):
     def cases(self, ctx, round=0):
         r = ctx.rng
         cs = []
-        for _ in range(ctx.n(185, 2200)):
+        for _ in range(ctx.n(185, 1900)):
             arr = gen_array(r, ctx)
             have = [f["name"] for f in arr["fields"]]
             k = r.choice([1, 1, 2, 2, 3, 4])
@@ -1076,7 +1076,7 @@ class Combine(Entry):
     def cases(self, ctx, round=0):
         r = ctx.rng
         cs = []
-        for _ in range(ctx.n(185, 2200)):
+        for _ in range(ctx.n(185, 1900)):
             shape = gen_shape(r, ctx)
             k = r.choice([1, 2, 2, 2, 3, 3, 4])
             kind = r.choice(["same", "same", "same", "same", "same", "size-differs", "shared-name", "mixed-shape", "empty"])
@@ -1154,7 +1154,7 @@ class Copy(Entry):
     def cases(self, ctx, round=0):
         r = ctx.rng
         cs = []
-        for _ in range(ctx.n(185, 2200)):
+        for _ in range(ctx.n(185, 1900)):
             a1 = gen_array(r, ctx)
             kind = r.choice(["same-shape", "same-shape", "same-shape", "same-shape", "size-differs", "lead-1",
                              "incompatible-shape", "disjoint", "all-common-permuted", "order-differs", "order-differs", "alias"])
@@ -1227,7 +1227,7 @@ class CopyByName(Entry):
     def cases(self, ctx, round=0):
         r = ctx.rng
         cs = []
-        for _ in range(ctx.n(185, 2200)):
+        for _ in range(ctx.n(185, 1900)):
             if r.random() < 0.08:
                 arr, na, kind = gen_substr_case(r, ctx)
                 sel = na["names"]
@@ -1315,7 +1315,7 @@ class Split(Entry):
     def cases(self, ctx, round=0):
         r = ctx.rng
         cs = []
-        for _ in range(ctx.n(150, 1900)):
+        for _ in range(ctx.n(150, 1700)):
             p = r.random()
             if p < 0.08:
                 arr, na, kind = gen_substr_case(r, ctx)
@@ -1464,7 +1464,7 @@ class Compare(Entry):
     def cases(self, ctx, round=0):
         r = ctx.rng
         cs = []
-        for _ in range(ctx.n(200, 2200)):
+        for _ in range(ctx.n(200, 1900)):
             a1 = gen_array(r, ctx, mode=r.choice(["values", "finite", "finite"]))
             kind = r.choice(["copy", "copy", "alias", "byteswapped", "one-item", "one-item", "fields-differ", "reordered",
                              "shape-differs", "sub-differs", "neg-zero", "nan", "wider-string", "size-differs",
